@@ -186,12 +186,35 @@ def new_arm(core_spec, lines=None):
         if core_spec.get('reset', True):
             arm.take_reset()
         load_state(arm, core_spec.get('regs') or {})
+        cfg_ = core_spec.get('config') or {}
+        if core_spec.get('custom_fetch') and not (cfg_.get('have_thumbee') or cfg_.get('have_jazelle')):
+            install_custom_fetch(arm)
     if core_spec.get('defer_setup'):
         # the bench constructs its processors first and loads them later (finish(), called by the board before the instance's first tick)
         PENDING[id(arm)] = (arm, setup)
     else:
         setup()
     return arm
+
+
+def install_custom_fetch(arm):
+    """An integrator's fetch unit: ArmV6.fetch_instruction overridden (here on the instance; the project's own test fixtures do it in a subclass) by
+    a routine that reads the instruction bytes itself - straight from the devices, little-endian - and leaves them in arm.opcode / arm.opcode_len
+    as the stock routine does.  Everything behind the fetch must work as before; nothing may depend on the stock routine having run."""
+    def fetch():
+        r = arm.registers
+        pc = r.pc_store_value()
+        if (r.cpsr.value >> 5) & 1:
+            hw1 = int.from_bytes(peek(arm, pc, 2).ljust(2, b'\0'), 'little')
+            if hw1 >> 11 in (0b11101, 0b11110, 0b11111):
+                hw2 = int.from_bytes(peek(arm, (pc + 2) & M32, 2).ljust(2, b'\0'), 'little')
+                arm.opcode, arm.opcode_len = hw1 << 16 | hw2, 32
+            else:
+                arm.opcode, arm.opcode_len = hw1, 16
+        else:
+            arm.opcode, arm.opcode_len = int.from_bytes(peek(arm, pc, 4).ljust(4, b'\0'), 'little'), 32
+        return arm.opcode
+    arm.fetch_instruction = fetch
 
 
 def finish(arm):
@@ -492,4 +515,4 @@ def dump_devices(arm, template):
 def snapshot_core_spec(arm, spec, arch_only=False):
     """a core spec that rebuilds exactly the current architectural state and memory of 'arm'"""
     return {'config': spec.get('config'), 'devices': dump_devices(arm, spec.get('devices', [])), 'regs': dump_state(arm, arch_only),
-            'reset': False, 'done_pc': spec.get('done_pc')}
+            'reset': False, 'done_pc': spec.get('done_pc'), 'custom_fetch': spec.get('custom_fetch')}
